@@ -410,4 +410,109 @@ example : Model.Timer.readDIV (Model.Timer.runCalls Model.Timer.init
 example : Model.Timer.readDIV (Model.Timer.runCalls Model.Timer.init (List.replicate 13 .tick)) = 0xac := by
   decide
 
+/-! ### interrupt requests and the relative reload phase -/
+
+/-- C12 (one IRQ per overflow).  In every machine cycle from every legal state: the timer interrupt
+    is requested in this cycle exactly when TIMA wraps FF→00 in this cycle (at the write-caused or
+    the counter-caused falling edge, `Spec.overflows`); when it is requested TIMA reads 00 afterwards
+    and the reload is still pending (so the request is never later than the reload); when it is not
+    requested no reload is pending; and nothing stays latched, so the same overflow cannot be
+    reported again by a later cycle. -/
+theorem c12_one_irq (t : Model.Timer.T) (h : MInv t) (w : Option Write) (hw : ByteW w) :
+    (Model.Timer.cycleObs t w).irq = Spec.Timer.overflows (abs t) w ∧
+    ((Model.Timer.cycleObs t w).irq = true →
+        (Model.Timer.cycleObs t w).tima = 0 ∧ (Model.Timer.cycle t w).reloadDelay = 1) ∧
+    ((Model.Timer.cycleObs t w).irq = false → (Model.Timer.cycle t w).reloadDelay = 0) ∧
+    (Model.Timer.cycle t w).interrupt = false := by
+  obtain ⟨hi, ha, ho⟩ := step_ok t h w hw
+  have hov : decide ((Model.Timer.cycle t w).reloadDelay = 1) = Spec.Timer.overflows (abs t) w := by
+    have := congrArg Spec.Timer.St.overflowed ha
+    simpa [abs, Spec.Timer.cycle] using this
+  have hirq : (Model.Timer.cycleObs t w).irq = Spec.Timer.overflows (abs t) w := by
+    rw [ho]; rfl
+  refine ⟨hirq, ?_, ?_, hi.no_irq⟩
+  · intro h1
+    rw [hirq] at h1
+    rw [h1] at hov
+    have hd : (Model.Timer.cycle t w).reloadDelay = 1 := by simpa using hov
+    exact ⟨hi.zero hd, hd⟩
+  · intro h0
+    rw [hirq] at h0
+    rw [h0] at hov
+    have hd : ¬ (Model.Timer.cycle t w).reloadDelay = 1 := by simpa using hov
+    have := hi.delay_le
+    omega
+
+/-- the number of interrupt requests in any guest schedule equals the number of cycles in which
+    TIMA wraps according to the specification -/
+theorem c12_irq_count (t : Model.Timer.T) (h : MInv t) (ws : List (Option Write)) (hws : Bytes ws) :
+    ((Model.Timer.observe t ws).filter (fun o => o.irq)).length =
+      ((Spec.Timer.observe (abs t) ws).filter (fun o => o.irq)).length := by
+  rw [c12_refines t h ws hws]
+
+private theorem falls_self (x : Bool) : Spec.Timer.falls x x = false := by cases x <;> rfl
+
+/-- C12 (relative reload).  If the interrupt is requested in a cycle (TIMA wrapped), then TIMA reads
+    00 after that cycle, and in the NEXT cycle – whatever the counter value, and also when that
+    cycle writes DIV, TMA or TAC –
+    * unless the cycle contains a TIMA write that is not ignored, TIMA is reloaded at its end from
+      TMA (the value TMA has after that cycle's write), plus one if the signal falls at that very
+      tick, and the following cycle is the "just reloaded" cycle;
+    * if it contains such a TIMA write of `v`, the reload is cancelled: TIMA is `v` (plus one if the
+      signal falls at the tick) and the following cycle is not a "just reloaded" cycle. -/
+theorem c12_reload_relative (t : Model.Timer.T) (h : MInv t) (w1 w2 : Option Write)
+    (hw1 : ByteW w1) (hw2 : ByteW w2) (hirq : (Model.Timer.cycleObs t w1).irq = true) :
+    (Model.Timer.cycleObs t w1).tima = 0 ∧
+    (Spec.Timer.cancels (abs (Model.Timer.cycle t w1)) w2 = false →
+      (Model.Timer.cycleObs (Model.Timer.cycle t w1) w2).tima =
+        Spec.Timer.bump (Spec.Timer.countEdge (abs (Model.Timer.cycle t w1)) w2)
+          (Model.Timer.cycleObs (Model.Timer.cycle t w1) w2).tma ∧
+      (Model.Timer.cycle (Model.Timer.cycle t w1) w2).reloading = true) ∧
+    (∀ v, w2 = some (.tima v) → (Model.Timer.cycle t w1).reloading = false →
+      (Model.Timer.cycleObs (Model.Timer.cycle t w1) w2).tima =
+        Spec.Timer.bump (Spec.Timer.countEdge (abs (Model.Timer.cycle t w1)) w2) v ∧
+      (Model.Timer.cycle (Model.Timer.cycle t w1) w2).reloading = false) := by
+  obtain ⟨_, h1, _, _⟩ := c12_one_irq t h w1 hw1
+  obtain ⟨hz, hd⟩ := h1 hirq
+  obtain ⟨hi, _, _⟩ := step_ok t h w1 hw1
+  obtain ⟨_, ha2, ho2⟩ := step_ok _ hi w2 hw2
+  have hov : (abs (Model.Timer.cycle t w1)).overflowed = true := by simp [abs, hd]
+  have hrl : (Model.Timer.cycle (Model.Timer.cycle t w1) w2).reloading =
+      Spec.Timer.reloads (abs (Model.Timer.cycle t w1)) w2 := by
+    have := congrArg Spec.Timer.St.reloaded ha2
+    simpa [abs, Spec.Timer.cycle] using this
+  refine ⟨hz, ?_, ?_⟩
+  · intro hc
+    rw [ho2, hrl]
+    simp [Spec.Timer.cycleObs, Spec.Timer.cycle, Spec.Timer.timaEnd, Spec.Timer.timaLoaded,
+      Spec.Timer.reloads, hov, hc]
+  · intro v hv hr
+    subst hv
+    rw [ho2, hrl]
+    have hr' : (abs (Model.Timer.cycle t w1)).reloaded = false := by simpa [abs] using hr
+    simp [Spec.Timer.cycleObs, Spec.Timer.cycle, Spec.Timer.timaEnd, Spec.Timer.timaLoaded,
+      Spec.Timer.reloads, Spec.Timer.cancels, Spec.Timer.timaMid, Spec.Timer.writeEdge,
+      Spec.Timer.timaAfterWrite, Spec.Timer.sysAfterWrite, Spec.Timer.tacAfterWrite, hov, hr',
+      falls_self, Spec.Timer.bump]
+
+/-- C12 (the cycle after a reload).  In the cycle after TIMA was reloaded (and no new overflow is
+    pending) a TIMA write is ignored and a TMA write also loads TIMA; in both cases the counter-caused
+    edge of that cycle still counts. -/
+theorem c12_after_reload_writes (t : Model.Timer.T) (h : MInv t) (hr : t.reloading = true)
+    (hd : t.reloadDelay = 0) (v : Nat) (hv : v < 256) :
+    (Model.Timer.cycleObs t (some (.tima v))).tima =
+        Spec.Timer.bump (Spec.Timer.countEdge (abs t) none) t.tima ∧
+    (Model.Timer.cycleObs t (some (.tma v))).tima =
+        Spec.Timer.bump (Spec.Timer.countEdge (abs t) none) v := by
+  obtain ⟨_, _, ho1⟩ := step_ok t h (some (.tima v)) hv
+  obtain ⟨_, _, ho2⟩ := step_ok t h (some (.tma v)) hv
+  have hr' : (abs t).reloaded = true := by simpa [abs] using hr
+  have hov : (abs t).overflowed = false := by simp [abs, hd]
+  rw [ho1, ho2]
+  constructor <;>
+  simp [Spec.Timer.cycleObs, Spec.Timer.cycle, Spec.Timer.timaEnd, Spec.Timer.timaLoaded,
+      Spec.Timer.reloads, Spec.Timer.cancels, Spec.Timer.timaMid, Spec.Timer.writeEdge,
+      Spec.Timer.countEdge, Spec.Timer.timaAfterWrite, Spec.Timer.sysAfterWrite,
+      Spec.Timer.tacAfterWrite, hov, hr', falls_self, Spec.Timer.bump] <;> rfl
+
 end Tetro.C12
